@@ -3,7 +3,6 @@
 // C16: control-frame throttling never blocks the reader without cause; close releases everything.
 //verif:pkg internal/transport
 //verif:bound loop=40 steps=4000000 preempt=2 paths=1500000
-//verif:thorough preempt=3 paths=6000000
 //verif:noreplay schedule-dependent: witnesses are re-executed deterministically in the engine from the recorded decision prefix
 //verif:outside throttle limits other than 1 and 2; more than 3 throttled and 1 unthrottled producers' items, one consumer taking up to 3 items, one reader, one close
 package transport
